@@ -171,7 +171,7 @@ Proof.
   2:{ intros k Hk. apply elem_of_sorted_levels in Hk. by apply elem_of_dom. }
   2:{ intros k Hk _. apply elem_of_sorted_levels. by apply elem_of_dom. }
   exists z. split; [|by apply (zpath_same s s0)].
-  unfold cofactor, try_to_reorder. cbn [bind get modify].
+  unfold cofactor, cofactor_names, try_to_reorder. cbn [bind get modify].
   unfold bind at 1, catch at 1. fold s0.
   rewrite (bind_ok _ _ _ _ _ Hmap). cbn [bind get].
   rewrite (proj2 (mem_valid s0 u) Hu0). unfold ensure.
